@@ -9,7 +9,7 @@ CONSTANTS
   WM = 8
   ConstructSlots <- Slots2
   Unbounded = TRUE
-  Ops <- CoreOps
+  Ops <- AllOps
 INVARIANTS TypeOK Refines NoAlias NoUseAfterFree NoDoubleFree NoLeak ConfigKept RoundTrip
 PROPERTIES SourceUnchanged
 CHECK_DEADLOCK FALSE
